@@ -527,7 +527,10 @@ def _r6(ctx, repo, md, nad):
                 ctx.check(not seed_kw and len(call.args) < 6, "R6", m, st, q, st, "resumed run() is not re-seeded",
                           f"{q}: run() is called with a seed on resume, discarding the restored generator state")
                 kws = {k.arg: norm(k.value) for k in call.keywords}
-                ctx.check(kws.get("steps") == "ckpt['steps']" and kws.get("remove_com") == "ckpt['remove_com']" and kws.get("reuse_P") == "reuse_P",
+                # the local holding the loaded checkpoint is whatever is handed to _restore_rng in this function (name-independent)
+                ck_names = [norm(c_.args[0]) for c_ in calls_in(m.func(q)) if callee_attr(c_) == "_restore_rng" and c_.args]
+                CK = ck_names[0] if ck_names else "ckpt"
+                ctx.check(kws.get("steps") == f"{CK}['steps']" and kws.get("remove_com") == f"{CK}['remove_com']" and kws.get("reuse_P") == "reuse_P",
                           "R6", m, st, q, st, "resumed run() receives the planned steps / remove_com / reuse_P of the original run",
                           f"{q}: run() on resume is called with steps={kws.get('steps')}, remove_com={kws.get('remove_com')}, reuse_P={kws.get('reuse_P')}")
             for c_ in ctor:
@@ -583,7 +586,9 @@ def _r7(ctx, md, nad):
         for kk, vv in zip(dd.keys, dd.values):
             if isinstance(kk, ast.Constant) and kk.value == "step_offset":
                 so = norm(vv)
-    ctx.check(so == "ckpt['step_done']", "R7", md, k, "_checkpoint_init_kwargs", "step_offset", "resumed engine gets step_offset = checkpointed step_done",
+    kparams = [a.arg for a in k.args.args if a.arg not in ("self", "cls")]
+    CK2 = next((pn for pn in kparams if any(isinstance(x, ast.Subscript) and norm(x.value) == pn for x in ast.walk(k))), "ckpt")
+    ctx.check(so == f"{CK2}['step_done']", "R7", md, k, "_checkpoint_init_kwargs", "step_offset", "resumed engine gets step_offset = checkpointed step_done",
               f"resumed engine gets step_offset = {so}")
     # no `abs_index + step_offset`
     n_abs = 0
